@@ -12,7 +12,8 @@ IMPL_SHARDS = 8
 RULE = ("adversarial streams: Content-Length from 0 to 2^64+ (incl. 2^24, 2^30, 2^40, 2^63, 2^64-1) with few body bytes, chunk "
         "sizes up to 20 hex digits, 10^4 headers, lines of 100 KB..1 MB, NUL/control/non-ASCII bytes, truncations at every class "
         "of position, TE headers with up to 60 entries mixing NaN/inf/negative q values, random bytes; x handler reads none / "
-        "some / all x respond / drop / panic; observed: process death, panic hook (library panics), largest single allocation "
+        "some / all x respond / drop / panic; a client that leaves without reading the server's bytes inside a streamed body (the "
+        "server's read then fails with a reset, not with end-of-stream); HTTP/0.9 requests answered in every way; observed: process death, panic hook (library panics), largest single allocation "
         "request of the process while the case runs; non-trivial = all; distinct = distinct lines")
 ASSUMPTIONS = ["allocation requests above 16 GiB are refused by the harness allocator (as an exhausted machine would), so "
                "a client-sized allocation shows up as process death; smaller ones through the recorded maximum",
